@@ -57,8 +57,8 @@ def parse(blob, G, side):
     if not isinstance(d, dict):
         return None, ["not a JSON object"]
     want = {"hashed_params", "side", "password", "xy_scalar"} | ({"idS"} if side == "S" else {"idA", "idB"})
-    if set(d) != want:
-        problems.append("key set %s != %s" % (sorted(d), sorted(want)))
+    if not want <= set(d):
+        problems.append("missing keys %s (object has %s)" % (sorted(want - set(d)), sorted(d)))
     out = {}
     for k in want & set(d):
         v = d[k]
